@@ -454,6 +454,7 @@ Img(T, v) ==
 -----------------------------------------------------------------------------
 (* Serialisation, relationally: SerOK(T, x, d) - d is an allowed into_data *)
 (* of the typed value x under T.                                           *)
+TagOutName(V, tag) == IF V.k = "cls" /\ \E i \in DOMAIN V.fs : V.fs[i].n = tag THEN FieldByName(V, tag).out ELSE tag
 RECURSIVE SerOK(_, _, _)
 SerOK(T, x, d) ==
   CASE T.k \in {"none", "bool", "int", "float", "complex", "str", "bytes", "bytearray", "lit"} -> d = x
@@ -502,7 +503,15 @@ SerOK(T, x, d) ==
          /\ x.k = "inst"
          /\ \E i \in DOMAIN T.vars :
               /\ T.vars[i].name = x.c
-              /\ (CASE T.lay = "int" -> SerOK(T.vars[i], x, d)
+              /\ (CASE T.lay = "int" ->
+                         \* the variant's own form, except that the tag stands under the tag's name (where parsing looks for it)
+                         \* however the variant spells its tag field in data
+                         LET o == TagOutName(T.vars[i], T.tag)
+                             d0 == IF d.k = "map" /\ o # T.tag
+                                   THEN [d EXCEPT !.ps = [j \in DOMAIN d.ps |-> IF d.ps[j][1] = MkStr(T.tag) THEN <<MkStr(o), d.ps[j][2]>> ELSE d.ps[j]]]
+                                   ELSE d IN
+                         /\ SerOK(T.vars[i], x, d0)
+                         /\ (d.k = "map" /\ o # T.tag) => \A j \in DOMAIN d.ps : d.ps[j][1] # MkStr(o)
                     [] T.lay = "ext" -> /\ d.k = "map" /\ d.f = "dict" /\ Len(d.ps) = 1
                                         /\ d.ps[1][1] = T.tags[i] /\ SerOK(T.vars[i], x, d.ps[1][2])
                     [] T.lay = "adj" -> /\ d.k = "map" /\ d.f = "dict" /\ Len(d.ps) = 2
